@@ -2,7 +2,9 @@
 package recovery
 
 import (
+	stderrors "errors"
 	"fmt"
+	"io/fs"
 	"math"
 	"os"
 	"strings"
@@ -145,8 +147,9 @@ func (dr *DatabaseRecovery) loadWithRetry(primaryPath, personalPath string) (*da
 
 // shouldRetry determines if an error is worth retrying
 func (dr *DatabaseRecovery) shouldRetry(err error) bool {
-	// Don't retry for file not found or permission errors
-	if os.IsNotExist(err) || os.IsPermission(err) {
+	// Don't retry for file not found or permission errors. The loader wraps the
+	// OS error, so look through the chain (os.IsNotExist does not unwrap).
+	if stderrors.Is(err, fs.ErrNotExist) || stderrors.Is(err, fs.ErrPermission) {
 		return false
 	}
 
